@@ -46,7 +46,7 @@ LEVEL_TEXT = ('Generated-input exploration of an integral identity: for random l
               'heating-profile constants are pinned exactly against the same kernel samples.')
 LEVEL_NOTE = ('Trusts the energy theorem (Tobie et al. 2005 eq. 33-37) and the trapezoid rule error model; bulk dissipation cannot be '
               'exercised because the solver API accepts a real bulk modulus only.')
-CASES = {'quick': 320, 'thorough': 6000}
+CASES = {'quick': 320, 'thorough': 30000}
 SHARDS = {'quick': 16, 'thorough': 16}
 RULE = ('Hypothesis draws 1-4 compressible solid layers (+ optionally one interior static-liquid shell), densities decreasing outward, '
         '|mu| 10^[9.5,11.3] with loss tangent 10^[-4,0], K, l 2..4, N_total 200..400, frequency, integrator; each planet is solved at N, '
